@@ -409,6 +409,9 @@ def judge_wire(u: str, obs, who: str):
                     f"{who} accepted {len(u.encode())}-byte URL {u[:40]!r}… but sent the {len(norm.encode())}-byte normalised form, which the server refused: {c}")
         if host.startswith("v") and "[" in host and ":" not in host:
             return ("norm-rejected:ipvfuture-inner-bracket", f"{who} sent {norm!r} for {u!r}; server answered {c}")
+        if len(u.encode("utf-8", "replace")) + 2 > 1024:
+            return ("wire-rejected:accepted-longer-than-limit", f"{who} accepted a URL of {len(u)} characters = {len(u.encode('utf-8', 'replace'))} bytes in UTF-8 (+2 for CRLF: more than the "
+                    f"1024 bytes of a request line) and sent it; the server did not accept the request line: {c}; handler calls {len(seen)}; URL {u!r}")
         return ("wire-rejected", f"request line for {u!r} was not accepted by the server: {c}; handler calls {len(seen)}")
     s = seen[0]
     for name, x, y in (("hostname", host, s[1]), ("port", port, s[2]), ("path", path, s[3]), ("query", query, s[4])):
@@ -434,7 +437,37 @@ def wire_urls_fixed() -> list[str]:
             fixed.append(shape + "q" * pad)
     fixed.append("gemini://localhost/" + "é" * 501)
     fixed.append("gemini://localhost/" + "é" * 502)
+    # the limit is one of BYTES on the wire: text of every UTF-8 width (2, 3 and 4 bytes per character) that ends exactly at the limit,
+    # one character beyond it, and well beyond it with few characters
+    for shape in ("gemini://localhost/", "gemini://localhost/?", "GEMINI://LOCALHOST:1965/d/"):
+        room = 1022 - len(shape)
+        for ch in ("\u00df", "\u65e5", "\u20ac", "\U0001f40d", "\U00012000", "\U0002f800"):
+            w = len(ch.encode("utf-8"))
+            fixed.append(shape + ch * (room // w) + "a" * (room % w))
+            fixed.append(shape + "a" * (room % w) + ch * (room // w + 1))
+    fixed += ["gemini://localhost/" + "\U0001f40d" * 294 + "?q=1", "gemini://localhost/d?" + "\U00012000" * 320, "gemini://localhost/" + "\u65e5" * 340]
     return fixed
+
+
+WIDE = {1: "az0-._~", 2: "\u00e9\u00df\u03a9\u0416", 3: "\u65e5\u20ac\uac00\u0915", 4: "\U0001f40d\U00012000\U0001d11e\U0002f800\U0001f600"}
+
+
+def long_text_url(rng: random.Random) -> str:
+    """a URL whose UTF-8 form ends within a few bytes of the request-line limit (or well beyond it) while its length in
+    CHARACTERS is anything from a quarter of that upwards: text of one UTF-8 width or of a mixture, in the path or the query"""
+    shape = rng.choice(["gemini://localhost/", "gemini://localhost/", "gemini://localhost/?", "gemini://localhost?", "gemini://localhost", "GEMINI://LOCALHOST:1965/",
+                        "gemini://[::1]:1966/d/", "gemini://127.0.0.1/a;b/?k="])
+    target = rng.choice([1016, 1019, 1020, 1021, 1022, 1022, 1022, 1023, 1023, 1024, 1025, 1026, 1030, 1060, 1200, 1360])
+    widths = rng.choice([[4], [4], [4], [3], [2], [4, 1], [4, 3], [4, 3, 2, 1], [3, 1], [2, 1]])
+    room = target - len(shape.encode("utf-8"))
+    out = []
+    while room > 0:
+        w = rng.choice(widths)
+        if w > room:
+            w = 1
+        out.append(rng.choice(WIDE[w]))
+        room -= w
+    return shape + "".join(out)
 
 
 def wire_cases(fam, rng: random.Random, n: int, extra=()):
@@ -445,6 +478,9 @@ def wire_cases(fam, rng: random.Random, n: int, extra=()):
         cnt += 1
         yield {"u": u}
     for _ in range(max(0, n - cnt)):
+        if rng.random() < 0.1:
+            yield {"u": long_text_url(rng)}
+            continue
         host = rng.choice(WIRE_HOSTS)
         u = rng.choice(["gemini", "gemini", "Gemini", "GEMINI", "gEMINI"]) + "://" + host + gen_port(rng) + gen_path(rng) + gen_query(rng)
         if rng.random() < 0.1:
@@ -543,9 +579,12 @@ class Wire(Family):
 
     def key(self, case, obs):
         c = obs["client"]
+        u = case["u"]
+        nb = len(u.encode("utf-8", "replace"))
+        size = "" if nb <= 1000 else (":longline" if nb <= 1022 else ":over-the-limit") + (":4-byte text" if any(ord(ch) > 0xFFFF for ch in u) else ":2/3-byte text" if not u.isascii() else "")
         if c[0] != "resp":
-            return c[0] + ":" + str(c[1])
-        return f"resp{c[1]}:" + classify_host(case["u"], None) + (":longline" if len(case["u"]) > 1000 else "")
+            return c[0] + ":" + str(c[1]) + size
+        return f"resp{c[1]}:" + classify_host(u, None) + size
 
 
 class Purity(Family):
